@@ -184,6 +184,63 @@ def CodeSt.init (P : Parser Path Key Page Content) (recorded : Env Path Content 
   { toSt := St.init P srcs post e,
     graph := fun s => if s ∈ srcs ∧ (e s).isSome then recorded e s else [] }
 
+/-! ## Layer 3: sources that read other sources
+
+A page may read another SOURCE file while it is parsed: `literalinclude` of an `.rst` / `.yaml` file (content), a `:doc:`
+role or a card url (existence). `_page_updated` keeps, on each dependency edge, what the file held when it was read
+(`hash`); `update(q)` of a source re-parses `q` and - `update_dependents(q, only_changed=True)` - the sources whose edge
+to `q` holds something else than `q` holds now; a create or a delete re-parses every source with an edge to `q`
+(`update_dependents(q)`), and so does `update_asset` for a file that is not a source. -/
+
+/-- the weaker obligation this policy meets: a reader of the touched path has to be re-parsed only if what the path
+holds really changed -/
+def CoversCh (P : Parser Path Key Page Content) (srcs : List Path) (e : Env Path Content)
+    (op : Op Path Content) (R : List Path) : Prop :=
+  ∀ s ∈ srcs, ∀ q, op.touched = some q →
+    (s = q ∨ ((e s).isSome = true ∧ q ∈ P.reads e s ∧ op.env e q ≠ e q)) → s ∈ R
+
+structure CodeSt3 (Path Key Page Content Result : Type) extends St Path Key Page Content Result where
+  /-- `graph s` = the edges `s → (file, what it held)` recorded at the last parse of `s` -/
+  graph : Path → List (Path × Option Content)
+
+/-- the sources `update(q)` / `delete(q)` re-parse -/
+def chosen3 [DecidableEq Content] (srcs : List Path) (graph : Path → List (Path × Option Content))
+    (e : Env Path Content) (op : Op Path Content) (q : Path) : List Path :=
+  let now := op.env e q
+  -- `update_dependents(q)` without `only_changed` (created / deleted) or `update_asset(q)` (not a source)
+  let all := decide (q ∉ srcs) || (e q).isNone || now.isNone
+  (if q ∈ srcs then [q] else []) ++
+    srcs.filter (fun s => decide (s ≠ q) && (graph s).any (fun rc => decide (rc.1 = q) && (all || decide (rc.2 ≠ now))))
+
+def regraph3 (recorded : Env Path Content → Path → List (Path × Option Content)) (srcs : List Path)
+    (e : Env Path Content) (R : List Path) (g : Path → List (Path × Option Content)) :
+    Path → List (Path × Option Content) :=
+  fun s => if s ∈ R then (if s ∈ srcs ∧ (e s).isSome then recorded e s else []) else g s
+
+def codeStep3 [DecidableEq Content] (P : Parser Path Key Page Content)
+    (recorded : Env Path Content → Path → List (Path × Option Content))
+    (srcs : List Path) (post : Store Path Key Page → Result)
+    (st : CodeSt3 Path Key Page Content Result) (op : Op Path Content) : CodeSt3 Path Key Page Content Result :=
+  match op.touched with
+  | none => { toSt := step P srcs post st.toSt (op, []), graph := st.graph }
+  | some q =>
+    let R := chosen3 srcs st.graph st.env op q
+    { toSt := step P srcs post st.toSt (op, R), graph := regraph3 recorded srcs (op.env st.env) R st.graph }
+
+def codeRun3 [DecidableEq Content] (P : Parser Path Key Page Content)
+    (recorded : Env Path Content → Path → List (Path × Option Content))
+    (srcs : List Path) (post : Store Path Key Page → Result)
+    (st : CodeSt3 Path Key Page Content Result) : List (Op Path Content) → CodeSt3 Path Key Page Content Result
+  | [] => st
+  | op :: rest => codeRun3 P recorded srcs post (codeStep3 P recorded srcs post st op) rest
+
+def CodeSt3.init (P : Parser Path Key Page Content)
+    (recorded : Env Path Content → Path → List (Path × Option Content))
+    (srcs : List Path) (post : Store Path Key Page → Result) (e : Env Path Content) :
+    CodeSt3 Path Key Page Content Result :=
+  { toSt := St.init P srcs post e,
+    graph := fun s => if s ∈ srcs ∧ (e s).isSome then recorded e s else [] }
+
 /-! ## The code before the fix (store part only) -/
 
 /-- `update` / `delete` as written before the fix: stale outputs of a multi-output source are never dropped -/
